@@ -82,6 +82,50 @@ def client_negotiation_stims(seed, tier):
     return out
 
 
+def mock_stims(seed, tier):
+    """the generated client against canned responses: response encodings, flags, status placement, HTTP status"""
+    import struct, zlib
+    rnd = random.Random(seed + 55)
+    out = []
+    encs = ['gzip', 'deflate', 'zstd']
+    n = 3000 if tier == 'thorough' else 500
+    def fr(flag, payload):
+        return [flag] + list(struct.pack('>I', len(payload))) + list(payload)
+    for i in range(n):
+        accept = [e for e in encs if rnd.random() < 0.4]
+        headers = [{'n': 'content-type', 'v': list(b'application/grpc')}]
+        enc_hdr = rnd.choice([None, None, 'identity', 'gzip', 'deflate', 'zstd', 'br', 'gz\xefp'])
+        if enc_hdr is not None:
+            headers.append({'n': 'grpc-encoding', 'v': list(enc_hdr.encode('latin1'))})
+        status = rnd.choice([200] * 6 + [400, 401, 403, 404, 429, 500, 502, 503, 504, 418])
+        head_code = rnd.choice([None] * 5 + [0, 3, 13, 16])
+        if head_code is not None:
+            headers.append({'n': 'grpc-status', 'v': list(str(head_code).encode())})
+        k = rnd.randint(0, 2) if head_code is None and status == 200 else 0
+        frames, first_flagged = [], False
+        for j in range(k):
+            payload = bytes([rnd.randrange(256)] * rnd.choice([0, 3, 20]))
+            flag = 1 if rnd.random() < 0.35 else 0
+            if flag == 1:
+                if enc_hdr == 'gzip':
+                    co = zlib.compressobj(6, zlib.DEFLATED, 31); payload = co.compress(payload) + co.flush()
+                elif enc_hdr == 'deflate':
+                    payload = zlib.compress(payload)
+                if j == 0:
+                    first_flagged = True
+            frames.append(fr(flag, payload))
+        trail_code = rnd.choice([0, 0, 0, 5, 9, 14, None]) if head_code is None else None
+        trailers = [{'n': 'grpc-status', 'v': list(str(trail_code).encode())}] if trail_code is not None else []
+        if trail_code not in (None, 0):
+            trailers.append({'n': 'grpc-message', 'v': list(b'boom')})
+        shape = rnd.choice(['unary', 'sstream'])
+        out.append({'mode': 'mock', 'class': 'mock_response', 'transport': 'mock', 'shim': {'cap': 0, 'rq': 0, 'wq': 0, 'pend': 0}, 'shape': shape,
+                    'server': {'send': [], 'accept': [], 'max_dec': -1, 'max_enc': -1}, 'client': {'send': '', 'accept': accept, 'max_dec': -1, 'max_enc': -1},
+                    'req': {'meta': [], 'msgs': [[1]]}, 'script': {'init_meta': [], 'msgs': [], 'end': {'ok': True}, 'fail_before': False, 'no_compress': False},
+                    'mock': {'status': status, 'headers': headers, 'body_chunks': frames, 'has_trailers': trail_code is not None, 'trailers': trailers, 'first_flagged': first_flagged}})
+    return out
+
+
 def limit_stims(seed, tier):
     """C06 at call level: max_{de,en}coding_message_size configured on the generated client / server."""
     rnd = random.Random(seed + 6)
@@ -115,6 +159,7 @@ def check(prop, tier, seed):
     tag = f'{prop}_{tier}'
     fams = [('calls', simple.gen('call', seed, tier, tag))]
     if prop == 'C05':
+        fams.append(('mock_responses', mock_stims(seed, tier)))
         fams.append(('negotiation_table', negotiation_stims(seed, tier, mc)))
         fams.append(('client_negotiation', client_negotiation_stims(seed, tier)))
     if prop == 'C08':
